@@ -246,7 +246,7 @@ func genCase(t *rapid.T) Case {
 
 var subRandom = runlog.Register(&runlog.Sub[Case]{
 	Name: "random-literals",
-	Rule: "spelling = random Go integer literal (magnitude biased to 0..40, 1024 neighbourhood, up to 2500, 2^63 neighbourhood, any uint64; base 10 / 0x / 0o / leading 0 / 0b, upper and lower case, extra zeros, legal underscores, optional sign), with probability 1/3 damaged by one or two edits (junk inserted/prepended/appended/substituted: blanks, underscores, letters, out-of-base digits, non-ASCII digits, exponent/fraction, second sign; byte deleted or doubled; leading zero; digits dropped); placed as a single-segment key or inside a path of 1-5 segments whose other segments come from {a,b,0,1,2}; PathSep '.', none, or an unusual one (_ x X - + / :: 0 b e: the spelling itself is then split); 0-2 sibling keys in the same node (plain names or a second spelled key); MaxIdx not given / 0..16 / value-1,value,value+1 of the spelling / {100,255,1023,1024,1025,5000} / a boundary value of the parameter {MaxInt64, MaxInt32, MaxInt64-1, MaxInt32+-1, 2^62, MaxUint32, 2^31} (1/11; a spelling such a cap turns into an index above 1025 (thorough tier 5001) is discarded); EnableNumKeys not given/false/true; the option list is a sequence: in 3/5 of the cases the explicit options are preceded by overridden occurrences of themselves (EnableNumKeys with the opposite value, the same value, or both; MaxIdx 0 / cap+-1 / a boundary value / 1024 / 0..16; another PathSep), either all in front (a shared base set) or each directly before its override, the explicit options in canonical or reverse order - the last occurrence counts; EscapePath given in 1/3 of the cases, the key (or the spelling alone) enclosed in brackets in 1/8; write site NewFrom(map[string]), NewFrom(map[interface{}]), NewFrom(struct tags), SetString. Same oracle and non-trivial rule as the grid. Discarded: keys that overlap after classification (same index spelled twice, a path through a leaf), keys that are not expressible at the site. Distinct: hash of the case.",
+	Rule: "spelling = random Go integer literal (magnitude biased to 0..40, 1024 neighbourhood, up to 2500, 2^63 neighbourhood, any uint64; base 10 / 0x / 0o / leading 0 / 0b, upper and lower case, extra zeros, legal underscores, optional sign), with probability 1/3 damaged by one or two edits (junk inserted/prepended/appended/substituted: blanks, underscores, letters, out-of-base digits, non-ASCII digits, exponent/fraction, second sign; byte deleted or doubled; leading zero; digits dropped); placed as a single-segment key or inside a path of 1-5 segments whose other segments come from {a,b,0,1,2}; PathSep '.', none, or an unusual one (_ x X - + / :: 0 b e: the spelling itself is then split); 0-2 sibling keys in the same node (plain names or a second spelled key); MaxIdx not given / 0..16 / value-1,value,value+1 of the spelling / {100,255,1023,1024,1025,5000} / a boundary value of the parameter {MaxInt64, MaxInt32, MaxInt64-1, MaxInt32+-1, 2^62, MaxUint32, 2^31} (1/11; a spelling such a cap turns into an index above 1025 is discarded); EnableNumKeys not given/false/true; the option list is a sequence: in 3/5 of the cases the explicit options are preceded by overridden occurrences of themselves (EnableNumKeys with the opposite value, the same value, or both; MaxIdx 0 / cap+-1 / a boundary value / 1024 / 0..16; another PathSep), either all in front (a shared base set) or each directly before its override, the explicit options in canonical or reverse order - the last occurrence counts; EscapePath given in 1/3 of the cases, the key (or the spelling alone) enclosed in brackets in 1/8; write site NewFrom(map[string]), NewFrom(map[interface{}]), NewFrom(struct tags), SetString. Same oracle and non-trivial rule as the grid. Discarded: keys that overlap after classification (same index spelled twice, a path through a leaf), keys that are not expressible at the site. Distinct: hash of the case.",
 	Gen:  genCase,
 	Run:  runCase,
 })
